@@ -323,7 +323,8 @@ func c12Doc(t *rapid.T) map[string]any {
 	for i := 0; i < len(rows)+1; i++ {
 		one = append(one, map[string]any{"k": float64(i + 1)})
 	}
-	return map[string]any{"t": rows, "u": us, "meta": map[string]any{"ip": "10.0.0.1"}, "grid": grid, "one": one}
+	return map[string]any{"t": rows, "u": us, "meta": map[string]any{"ip": "10.0.0.1"}, "grid": grid, "one": one,
+		"col": map[string]any{"a": map[string]any{"b": 2.0}, "a_b": 1.0, "c": map[string]any{"d_e": 3.0, "f": "x"}, "c_d": map[string]any{"e": 4.0}, "z": "last"}}
 }
 
 func genC12(t *rapid.T) *Bundle {
@@ -335,7 +336,7 @@ func genC12(t *rapid.T) *Bundle {
 	}
 	g := &c12Gen{t: t, root: root}
 	T, U := root+"t", root+"u"
-	shape := g.pick("shape", "plain", "plain", "where", "order_total", "order_ties", "limit", "distinct", "group", "whole_agg", "join", "pjoin", "derived", "cte", "cte_direct", "dual", "union", "slice", "alias", "star", "nested_from", "group_star", "in_subquery", "having", "cte_col", "cte_twice", "offset_window", "join_into", "join_into", "join_unaliased", "distinct_async", "grid", "grid_cte", "grid_distinct", "join_derived_side", "cte_dual_star", "join_limit", "nonfinite", "async_arg", "defaultkey")
+	shape := g.pick("shape", "plain", "plain", "where", "order_total", "order_ties", "limit", "distinct", "group", "whole_agg", "join", "pjoin", "derived", "cte", "cte_direct", "dual", "union", "slice", "alias", "star", "nested_from", "group_star", "in_subquery", "having", "cte_col", "cte_twice", "offset_window", "join_into", "join_into", "join_unaliased", "distinct_async", "grid", "grid_cte", "grid_distinct", "join_derived_side", "cte_dual_star", "join_limit", "nonfinite", "async_arg", "defaultkey", "mix_collide", "scope_routes")
 	seq := true
 	var q string
 	switch shape {
@@ -425,7 +426,30 @@ func genC12(t *rapid.T) *Bundle {
 		// the pending slot of an ASYNC call handed to another function as an argument
 		g.site++
 		g.sites = append(g.sites, g.site)
-		q = fmt.Sprintf("SELECT id, %s AS c0 FROM %s", fmt.Sprintf(g.pick("async_arg_form", "CONCAT('x', ASYNC.fx(%d, a))", "ARRAY(ASYNC.fx(%d, a), 1)", "HASH(ASYNC.fx(%d, a), 'md5')"), g.site), T)
+		q = fmt.Sprintf("SELECT id, %s AS c0 FROM %s", fmt.Sprintf(g.pick("async_arg_form", "CONCAT('x', ASYNC.fx(%d, a))", "ARRAY(ASYNC.fx(%d, a), 1)", "HASH(ASYNC.fx(%d, a), 'md5')",
+			// (AWAIT hands out a slot of its own, filled when the query settles: the same goes for it)
+			"ARRAY(AWAIT(ASYNC.fx(%d, a)))", "CONCAT(AWAIT(ASYNC.fx(%d, a)), '!')", "(AWAIT(ASYNC.fx(%d, a)), 1)"), g.site), T)
+	case "mix_collide":
+		// mix=> flattens nested objects into outer_inner keys: an object that already has such a key, or two nested
+		// objects whose flattened keys coincide, must come out the same way every time
+		q = fmt.Sprintf("SELECT %s FROM %s", g.pick("mix_collide_sel", "`mix=>"+root+"col` AS m", "`mix=>"+root+"col.c` AS m, `mix=>"+root+"col` AS m2", "(SELECT * FROM `mix=>"+root+"col`) AS m"), g.pick("mix_collide_from", "dual", T))
+		if rapid.IntRange(0, 3).Draw(t, "mix_from") == 0 {
+			q = fmt.Sprintf("SELECT * FROM `mix=>%scol`", root)
+		}
+	case "scope_routes":
+		// the enclosing document (the scope CTE thunks live in, carrying the marker of the level above) reached by other
+		// routes than the column `<-`: FROM `<-` AS p, two steps up, the whole-row selectors over dual
+		with := g.pick("scope_with", "", "WITH c AS (SELECT 1 AS one FROM dual) ")
+		q = with + fmt.Sprintf(g.pick("scope_route",
+			"SELECT id, (SELECT (SELECT p FROM `<-` AS p) AS s2 FROM dual) AS s1 FROM %s",
+			"SELECT id, (SELECT (SELECT * FROM `<-` AS p) AS s2 FROM dual) AS s1 FROM %s",
+			"SELECT id, (SELECT * FROM `<-` AS p) AS s FROM %s",
+			"SELECT id, (SELECT p FROM `<-` AS p) AS s FROM %s",
+			"SELECT id, (SELECT (SELECT `<-<-` AS d FROM dual) AS s2 FROM dual) AS s1 FROM %s",
+			"SELECT id, (SELECT `<-` AS d FROM dual) AS s1 FROM %s"), T)
+		if rapid.IntRange(0, 2).Draw(t, "scope_dual") == 0 {
+			q = with + fmt.Sprintf("SELECT %s FROM dual", g.pick("scope_whole_row", "`mix=>` AS m", "`::` AS d", "`mix=>` AS m, `::` AS d"))
+		}
 	case "cte_dual_star":
 		// `*` over dual is the enclosing document: a CTE evaluated on the way must not become a column later on
 		q = fmt.Sprintf("WITH c AS (SELECT id, a FROM %s) SELECT *, (SELECT a FROM `<-c` WHERE id = 1) AS y FROM dual", T)
